@@ -265,7 +265,7 @@ def explore(fn, budget_s: float, per_path_timeout: float = 30.0, seed: int = 0,
     from crosshair.options import AnalysisKind
     from crosshair.statespace import (CallAnalysis, NotDeterministic, RootNode, StateSpace,
                                       StateSpaceContext, VerificationStatus)
-    from crosshair.util import IgnoreAttempt, UnexploredPath
+    from crosshair.util import CrossHairInternal, IgnoreAttempt, UnexploredPath
 
     sig = inspect.signature(fn, eval_str=True)
     root = RootNode()
@@ -310,7 +310,13 @@ def explore(fn, budget_s: float, per_path_timeout: float = 30.0, seed: int = 0,
                         exc = ef.user_exc[0]
                         if isinstance(exc, NotDeterministic):
                             raise exc
-                        conc = deep_realize(pre_args)
+                        try:
+                            conc = deep_realize(pre_args)
+                        except CrossHairInternal as ie:
+                            # "Unexpected unsat from solver": the path condition turned out infeasible when a
+                            # model was requested (an earlier incomplete non-linear check let it through).
+                            # Not a counterexample: count the path as unexplored.
+                            raise UnexploredPath("no model for the failing path: %s" % str(ie)[:80])
                         with NoTracing():
                             tb = "".join(x for x in ef.user_exc[1].format() if "site-packages/crosshair" not in x)
                             res["counterexamples"].append({
